@@ -1131,14 +1131,16 @@ void output_text(FILE *pfile)
             }
             else
             {
-               add_text(pc->GetStr(), false, pc->Is(CT_STRING));
+               add_text(pc->GetStr(), false,
+                        pc->Is(CT_STRING) || pc->Is(CT_STRING_MULTI));   // literal text: keep tabs after blanks
             }
             // insert <here> the HTML code for the tracking
             DecodeTrackingData(pc);
          }
          else              // standard output
          {
-            add_text(pc->GetStr(), false, pc->Is(CT_STRING));
+            add_text(pc->GetStr(), false,
+                     pc->Is(CT_STRING) || pc->Is(CT_STRING_MULTI));      // literal text: keep tabs after blanks
          }
 
          if (pc->Is(CT_PP_DEFINE))  // Issue #876
